@@ -1,7 +1,7 @@
 (* C02 - CBOR validation verdicts equal RFC 8610 semantics on the core language, independently of the encoding.
    Same specification and decider as C01 with jm = false (integers and floats are distinct items),
    over values with byte strings, tags, simple values, arbitrary keys and the full 64-bit range. *)
-From Cddl Require Import Base.Bytes Cbor.Wire Cbor.Wf Sem.Syntax Sem.Validator Sem.Sem Sem.Decides Sem.Complete Sem.CborTie.
+From Cddl Require Import Base.Bytes Cbor.Wire Cbor.Wf Sem.Syntax Sem.Validator Sem.Sem Sem.Decides Sem.Complete Sem.CborTie Sem.Total.
 Open Scope Z_scope.
 
 Theorem C02_cbor : forall e f t v b,
@@ -29,3 +29,13 @@ Definition ex2_doc : value :=
   VMap [(VInt 7, VInt 18446744073709551615); (VInt 1, VTag 24%N (VBytes [0%N])); (VInt (-1), VBytes [1%N; 2%N])].
 Example C02_example_match : MatchT false ex2_env (TRef 0%N) ex2_doc.
 Proof. exact (proj1 (proj1 (vmodel_decides false ex2_env 60 (TRef 0%N) ex2_doc true eq_refl)) eq_refl). Qed.
+
+(* totality, CBOR reading (Sem/Total.v): on every well-founded schema the decider answers for every CBOR data
+   item and the specification assigns it a verdict; C01_decider_total is the same theorem for the JSON reading *)
+Theorem C02_decider_total : forall e rho B mg t v,
+  wf_env_b e rho B mg = true -> wf_ty e rho B mg B t = true -> exists f r, vt f false e t v = Some r.
+Proof. intros e rho B mg t v He Ht. exact (decider_total false e rho B mg He t v Ht). Qed.
+
+Theorem C02_semantics_total : forall e rho B mg t v,
+  wf_env_b e rho B mg = true -> wf_ty e rho B mg B t = true -> MatchT false e t v \/ FailT false e t v.
+Proof. intros e rho B mg t v. exact (semantics_total false e rho B mg t v). Qed.
